@@ -147,6 +147,11 @@ def run(ck: Check, prog: Program) -> None:
     if not okd:
         ck.finding('REQ-DEFAULT', bpm.qualname, 'required/default mapping', bpm.module.rel, bpm.node.lineno,
                    'a field must be required (…) iff the parameter has no default, and carry the default otherwise')
+    # "a request that adds an unlisted name is always refused": the binder must see the params exactly as sent
+    from .c04 import _ctx_rules
+    for b in bind_methods(prog):
+        before = len(ck.findings)
+        _ctx_rules(ck, prog, b)
     # SIG-SOURCE
     _sig_source(ck, prog)
 
